@@ -2,7 +2,7 @@
    Statements only; proofs in SigP.GorillaProofs / SigP.TsidProofs. *)
 From SigM Require Import Base Bits Gorilla Tsid.
 From SigG Require Import Gen.
-From SigP Require Import BaseProofs BitsProofs GorillaProofs TsidProofs GenC08.
+From SigP Require Import BaseProofs BitsProofs GorillaProofs TsidProofs GenC08 GenC08bw.
 Open Scope Z_scope.
 
 (* The series codec (compressor.go -> bytes -> decompressor.go) returns every point with the
@@ -129,3 +129,14 @@ Theorem C08_code_encoder_roundtrip : forall (hdr : N) (pts : list (N * N)),
   decode (pack (gen_encode_bits hdr pts)) = pts.
 Proof. exact gen_encoder_roundtrip. Qed.
 Print Assumptions C08_code_encoder_roundtrip.
+
+(* ==== the bit writer, REGENERATED from bit_writer.go (writeBit, writeByte, writeBits, flush; state = partial byte and
+   free-bit count; every byte handed to the io.Writer is an event) ====
+   Every sequence of writeBit / writeBits calls (fields of 0..64 bits) from the empty writer, followed by flush(zero),
+   hands the io.Writer exactly the bytes `pack` gives for the bits: the reading of the calls as bits used above
+   (ev_bits) is what the code does. *)
+Theorem C08_code_bitwriter_is_pack : forall evs : list (Z * list Z),
+  Forall ev_wf evs ->
+  out_bytes (snd (bw_run (0, 8) (evs ++ [(2, [0])]))) = pack (evs_bits evs).
+Proof. exact gen_bitwriter_is_pack. Qed.
+Print Assumptions C08_code_bitwriter_is_pack.
